@@ -54,6 +54,6 @@ theorem entryOk_tid (HR : Res → Prop) (x : Ctx) (ph : Phase) (cb : CbId) :
 theorem trigger_ext (m : Machine) (t : Trigger) : Resp (Ext t.tid) (trigger nestedRtc m t) :=
   trigger_lift (Ext.lift t.tid) m t
     (fun _ _ _ => ⟨fun cb _ => entryOk_tid _ _ _ cb, setState_ext t _⟩)
-    (fun _ _ tr _ _ => ⟨fun ph cb _ => entryOk_tid _ (actCtx t tr) ph cb, setState_ext t _⟩)
+    (fun _ tr _ _ => ⟨fun ph cb _ => entryOk_tid _ (actCtx t tr) ph cb, setState_ext t _⟩)
 
 end SMV
